@@ -4,7 +4,7 @@ import gen
 from props import gpcommon as G
 
 SCEN_FLAGS = {0: "callback_or_poll_had_to_wait_for_reader", 3: "barrier_with_pending_callbacks", 4: "poll_handle_taken_while_worker_active",
-              5: "chained_callback", 6: "per_cpu_helpers", 7: "per_thread_helper", 9: "passive_drain", 10: "concurrent_barriers", 11: "poll_counter_fast_forwarded_near_wrap", 12: "burst_of_callbacks_in_one_batch",
+              5: "chained_callback", 6: "per_cpu_helpers", 7: "per_thread_helper", 9: "passive_drain", 10: "concurrent_barriers", 11: "poll_counter_fast_forwarded_near_wrap", 12: "burst_of_callbacks_in_one_batch", 13: "completed_handles_aged_by_2^31_or_more_grace_periods",
               48: "futex_sleep", 49: "wake_hit_sleeping_thread", 50: "delayed_store", 51: "store_forwarded", 52: "membarrier",
               55: "cas_fail", 56: "mutex_block", 57: "stale_read"}
 FLAVORS = ["memb", "mb", "qsbr", "bp"]
@@ -30,13 +30,16 @@ def make_example(focus):
             # history prefix: the polling grace-period counter starts where a long-running process would have it (URCU_VERIF fast-forward hook):
             # 0 untouched, 1 just below ULONG_MAX (ids wrap to 0 during the case), 2 just below LONG_MAX (signed wrap), 3 somewhere else
             pk = draw(st.sampled_from([0, 0, 1, 1, 2, 3]))
+            wk = draw(st.sampled_from([0, 0, 1, 2, 3, 4, 5, 6, 7, 8, 9]))
+            if wk:
+                head.append("cfg pollwarp %d" % wk)   # after the threads have finished: every handle ages by 2^31-1 .. 2^62 polled grace periods and must stay completed
             if pk:
                 head += ["cfg pollbase %d" % pk, "cfg polloff %d" % (draw(st.integers(0, 3)) if pk < 3 else draw(st.integers(1, 1 << 20)))]
         out = []
         big = [int(l.split()[2]) for l in prog if " burst " in l]
         tail = ["budget %d" % (60000 + 40 * sum(big))] if big else []   # a burst of n callbacks costs the helper a few dozen steps each
         for _ in range(gen.BATCH):
-            sched = gen.schedule_lines(draw, tier, len(nops), nops, ndaemons=4, faults=("futex_eintr", "futex_spurious"), fault_max=2)
+            sched = gen.schedule_lines(draw, tier, len(nops), nops, ndaemons=4, faults=("futex_eintr", "futex_spurious", "futex_wait_enosys"), fault_max=2)
             out.append("\n".join(head + prog + sched + tail) + "\n")
         return out
     return example
